@@ -110,6 +110,50 @@ def _marshal_kwargs_none_safe(fn):
     raise Shape("MarshalSerializer.dumpsCall: unrecognised receiver of .items(): %s" % r)
 
 
+
+def _marshal_list_items(mars):
+    """(dumps converts the items of a top-level list, dumpsCall converts the items of list arguments).
+    A *list-item converter* is a method of MarshalSerializer with a statement
+        if type(X) is list:  X = [self.convert_obj_into_marshallable(v) for v in X]
+    `dumps` converts list items if it is such a method or passes its data to one; `dumpsCall` does if
+    both of its comprehensions (vargs, kwargs values) call such a helper instead of
+    convert_obj_into_marshallable directly."""
+    def is_converter(fn):
+        for st in ast.walk(fn):
+            if isinstance(st, ast.If) and isinstance(st.test, ast.Compare) and isinstance(st.test.ops[0], ast.Is) \
+                    and _src(st.test.comparators[0]) == "list" and _src(st.test.left).startswith("type("):
+                for sub in ast.walk(st):
+                    if isinstance(sub, ast.ListComp) and "self.convert_obj_into_marshallable(" in _src(sub.elt):
+                        return True
+        return False
+    converters = {n.name for n in mars.body if isinstance(n, ast.FunctionDef) and is_converter(n)}
+    dumps = _meth(mars, "dumps")
+    dumps_calls = {c.func.attr for c in ast.walk(dumps) if isinstance(c, ast.Call) and isinstance(c.func, ast.Attribute)
+                   and _src(c.func.value) == "self"}
+    res = "dumps" in converters or bool(dumps_calls & converters)
+    if not res and not ("convert_obj_into_marshallable" in dumps_calls):
+        raise Shape("MarshalSerializer.dumps: no conversion call recognised")
+    dc = _meth(mars, "dumpsCall")
+    comps = [n for n in ast.walk(dc) if isinstance(n, (ast.ListComp, ast.DictComp))]
+    if len(comps) != 2:
+        raise Shape("MarshalSerializer.dumpsCall: expected two comprehensions (vargs, kwargs)")
+    kinds = []
+    for comp in comps:
+        elt = comp.elt if isinstance(comp, ast.ListComp) else comp.value
+        if not (isinstance(elt, ast.Call) and isinstance(elt.func, ast.Attribute) and _src(elt.func.value) == "self"):
+            raise Shape("MarshalSerializer.dumpsCall: unrecognised element conversion " + _src(elt))
+        name = elt.func.attr
+        if name == "convert_obj_into_marshallable":
+            kinds.append(False)
+        elif name in converters:
+            kinds.append(True)
+        else:
+            raise Shape("MarshalSerializer.dumpsCall: unknown conversion helper " + name)
+    if kinds[0] != kinds[1]:
+        raise Shape("MarshalSerializer.dumpsCall converts vargs and kwargs differently")
+    return res, kinds[0]
+
+
 def _tuple_names(node):
     if not isinstance(node, ast.Tuple):
         raise Shape("expected a tuple literal, got %s" % _src(node))
@@ -149,6 +193,7 @@ def extract():
 
     # --- marshal
     kw_none_safe = _marshal_kwargs_none_safe(_meth(mars, "dumpsCall"))
+    res_items, call_items = _marshal_list_items(mars)
     conv = _meth(mars, "convert_obj_into_marshallable")
     marshalable = None
     for st in conv.body:
@@ -249,6 +294,9 @@ def msgpackUnpackOther : List (List String) := [{_lean_str_list(sorted("%s=%s" %
 def msgpackPackKw : List (List String) := [{", ".join(_lean_str_list(p) for p in pack_kw)}]
 /-- MarshalSerializer.dumpsCall tolerates kwargs=None (the receiver of .items() is guarded) -/
 def marshalKwargsNoneSafe : Bool := {b(kw_none_safe)}
+/-- dumps / dumpsCall also convert the items of a top-level list (`type(data) is list`) -/
+def marshalDumpsListItems : Bool := {b(res_items)}
+def marshalDumpsCallListItems : Bool := {b(call_items)}
 def marshalableTypes : List String := {_lean_str_list(marshalable)}
 /-- isinstance tests of MarshalSerializer.class_to_dict before delegating to the base class -/
 def marshalClassToDict : List String := {_lean_str_list(marshal_c2d)}
